@@ -280,7 +280,7 @@ pub fn case(t: &mut Tape, ctx: &CaseCtx) -> CaseResult {
 
 pub fn run(mut run: Run) -> i32 {
     run.replay_committed(&case);
-    run.random("CUP histories with forgeries", &[], run.n(40_000, 600_000), 700, &case);
+    run.random("CUP histories with forgeries", &[], run.n(100_000, 1_000_000), 700, &case);
     run.finish(
         RULE,
         300,
